@@ -20,6 +20,7 @@ EXPLANATION = (
     "pack_descriptors; (R14.4) boolean fields are normalised to JSON booleans for the declared type; (R14.5) the plain-JSON "
     "fallback of the reader derives its descriptor from the CURRENT line only (no state carried between lines). NOT decided: "
     "value identity after the round trip (big ints, NaN, surrogates inside json)."
+    " Also decided (rules added after the fifth blind round): (R14.6) generated constructor code (records with keyword field names are built by keyword) never uses a generic field value as a truth value; (R14.3) the descriptor handler is registered exactly when descriptors are enabled."
 )
 RULE_SUMMARY = "instances: encoder branches, decoder conversions, per-field normalisations, writer/line sites, fallback definitions"
 
